@@ -71,8 +71,23 @@ def overlapEnum : Enum1 :=
       ⟨[.dynSegs], [.vecU32]⟩ ],                               -- 4 AllNums(Vec<u32>) "/<all..>"
     notFound := 5, inner := innerEnum }
 
+/-- unit variants declared after variants with captures that accept the same path -/
+def shadowEnum : Enum1 :=
+  { variants := [
+      ⟨[.dynParam], [.str]⟩,                                   -- 0 Page{page}  "/<page>"
+      ⟨[.param (str "about")], []⟩,                            -- 1 About       "/about"  (never first)
+      ⟨[.param (str "u"), .dynParam], [.u32]⟩,                 -- 2 User(u32)   "/u/<id>"
+      ⟨[.param (str "u"), .param (str "me")], []⟩,             -- 3 Me          "/u/me"
+      ⟨[.param (str "u"), .param (str "7")], []⟩,              -- 4 Seven       "/u/7"    (never first)
+      ⟨[.param (str "docs"), .dynSegs], [.vecStr]⟩,            -- 5 Docs(Vec<String>)
+      ⟨[.param (str "docs"), .param (str "index")], []⟩,       -- 6 DocsIndex   (never first)
+      ⟨[.param (str "n"), .dynSegs], [.vecU32]⟩,               -- 7 Ns(Vec<u32>)
+      ⟨[.param (str "n"), .param (str "x"), .param (str "y")], []⟩, -- 8 NXY (x, y are not numbers)
+      ⟨[], []⟩ ],                                              -- 9 Home "/"
+    notFound := 10, inner := innerEnum }
+
 def enumTable : List Enum1 :=
-  [mainEnum, overlapEnum, { variants := innerEnum.variants, notFound := innerEnum.notFound, inner := innerEnum }]
+  [mainEnum, overlapEnum, { variants := innerEnum.variants, notFound := innerEnum.notFound, inner := innerEnum }, shadowEnum]
 
 def showRoute : Except Panic (Nat × List FVal) → String
   | .error .indexOutOfBounds => "panic index"
